@@ -319,6 +319,20 @@ def run(cx):
                         # methods of the evaluator's own value types (int/float/str/list); str.format is
                         # deliberately absent (format-string attribute traversal)
                         ok = True
+                    elif isinstance(f.value, ast.Name):
+                        # `row.fold(...)`: `row` only ever holds a row of a checked, evaluated table (every field of every row
+                        # was judged as a value) and `fold` is a field of those rows
+                        def _row_lookup(d_):
+                            if isinstance(d_, ast.Subscript):
+                                return norm(d_.value) if norm(d_.value) in value_tables else None
+                            if isinstance(d_, ast.Call) and isinstance(d_.func, ast.Attribute) and d_.func.attr == "get" and len(d_.args) == 1:
+                                return norm(d_.func.value) if norm(d_.func.value) in value_tables else None
+                            return None
+                        ds_ = [x.value for x in ast.walk(sfn) if isinstance(x, ast.Assign) and len(x.targets) == 1 and isinstance(x.targets[0], ast.Name) and x.targets[0].id == f.value.id]
+                        tbls_ = [_row_lookup(d_) for d_ in ds_]
+                        ok = bool(ds_) and all(tbls_) and f.value.id not in params and all(
+                            (isinstance(v_, tuple) and f.attr in getattr(type(v_), "_fields", ())) or (isinstance(v_, dl.Synth) and f.attr in vars(v_))
+                            for t_ in tbls_ for v_ in value_tables[t_].values())
                 elif isinstance(f, ast.Subscript):
                     base = norm(f.value)
                     ok = base in ("ops",) or base in module_tables
